@@ -365,6 +365,9 @@ def conditions(prog):
 
 # ----------------------------------------------------------------------------------------------- generator
 
+DEFAULT_SCHEMA = {'classes': CLASS_ATTRS, 'order': ['A', 'B', 'X', 'L'], 'edges': EDGES, 'assoc': True}
+
+
 class V(object):
     """static facts about a variable"""
     __slots__ = ('ty', 'cls', 'ne', 'dead', 'frozen')
@@ -382,8 +385,17 @@ class ProgGen(object):
     pure (bool: no effect on the population)."""
 
     def __init__(self, rng, max_stmts=25, max_depth=3, params=(), calls=(), self_cls=None, derived=(),
-                 allow_delete=True, allow_mutation=True, enums=(), consts=(), var_prefix=''):
+                 allow_delete=True, allow_mutation=True, enums=(), consts=(), var_prefix='', schema=None,
+                 ret_ty='any', rec_call=None, derived_attr=None):
         self.rng = rng
+        schema = schema or DEFAULT_SCHEMA
+        self.classes = schema['classes']          # {class: [(attr, ty, referential)]}
+        self.cls_names = list(schema['order'])
+        self.edges = schema['edges']
+        self.assoc = schema['assoc']              # the R1..R4 associations of the fixed schema are there
+        self.ret_ty = ret_ty                      # 'any' (top-level program), a type name, or None (no value)
+        self.rec_call = rec_call                  # signature of a callable to call under `if (param.cnt > 0)`
+        self.derived_attr = derived_attr          # name of the derived attribute whose body this is
         self.budget = max_stmts
         self.max_depth = max_depth
         self.params = list(params)            # [(name, ty)]
@@ -494,7 +506,7 @@ class ProgGen(object):
         return out
 
     def attrs_of(self, cls, ty):
-        out = [a for a, t, ref in CLASS_ATTRS[cls] if not ref and t == ty]
+        out = [a for a, t, ref in self.classes[cls] if not ref and t == ty]
         out += [a for c, a, t in self.derived if c == cls and t == ty]
         return out
 
@@ -531,7 +543,8 @@ class ProgGen(object):
         return None
 
     def gen_call(self, c, depth=1, extra=()):
-        args = [[n, self.gen_expr(t, min(depth, 1), extra)] for n, t in c['params']]
+        args = [[n, (['int', self.rng.choice([0, 0, 1, 1, 2])] if n == 'cnt' else self.gen_expr(t, min(depth, 1), extra))]
+                for n, t in c['params']]
         self.rng.shuffle(args)          # binding is by name: the order at the call site is free
         if c['kind'] == 'function':
             return ['callf', c['name'], args]
@@ -648,8 +661,39 @@ class ProgGen(object):
 
     # -- statements ----------------------------------------------------------------------------
     def gen_program(self):
-        body = self.gen_block(0, top=True)
+        prelude = []
+        if self.rec_call is not None:
+            # some locals first, then the guarded recursive call; the locals are read again afterwards
+            for _ in range(self.rng.randint(1, 2)):
+                prelude.extend(self.st_assign(0))
+            c = self.rec_call
+            args = [[n, (['bin', '-', ['param', 'cnt'], ['int', 1]] if n == 'cnt' else self.gen_expr(t, 1))]
+                    for n, t in c['params']]
+            self.rng.shuffle(args)
+            call = self._call_node(c, args)
+            inner = []
+            if call is not None:
+                if c['ret']:
+                    name = self.fresh({'integer': 'i', 'string': 's', 'boolean': 'f'}[c['ret']])
+                    zero = {'integer': ['int', 0], 'string': ['str', ''], 'boolean': ['bool', False]}[c['ret']]
+                    prelude.append(['assign', name, zero])
+                    self.declare(name, V(c['ret']))
+                    inner.append(['assign', name, call])
+                else:
+                    inner.append(['call', call])
+                prelude.append(['if', ['bin', '>', ['param', 'cnt'], ['int', 0]], inner, [], None])
+        body = self.gen_block(0, top=True, prelude=prelude)
         return body
+
+    def _call_node(self, c, args):
+        if c['kind'] == 'function':
+            return ['callf', c['name'], args]
+        if c['kind'] in ('bridge', 'classop'):
+            return ['calln', c['ns'], c['name'], args]
+        hs = self.handle_exprs(c['ns'])
+        if not hs:
+            return None
+        return ['callo', self.rng.choice(hs)[0], c['name'], args]
 
     def spend(self, n=1):
         self.budget -= n
@@ -706,6 +750,42 @@ class ProgGen(object):
                     acc = ['bin', '!=', acc, e]
                 out.append(['setattr', ['var', z], 'b', acc])
             out.append(['setattr', ['var', z], 'n', total])
+        if self.ret_ty != 'any':
+            # a callable: the declared type decides; every variable the body still sees is folded into the value,
+            # so that any disturbance of the caller's / callee's variables shows
+            if self.derived_attr and r.random() < 0.6:
+                # the usual form of a derived attribute body: assign self.<attr>; reading it back reads the result so far
+                if self.ret_ty == 'integer':
+                    out.append(['setattr', ['self'], self.derived_attr, total])
+                    if r.random() < 0.5:
+                        out.append(['setattr', ['self'], self.derived_attr,
+                                    ['bin', '+', ['attr', ['self'], self.derived_attr], ['int', 1]]])
+                elif self.ret_ty == 'string':
+                    out.append(['setattr', ['self'], self.derived_attr, strs[0] if strs else ['str', 'd']])
+                else:
+                    out.append(['setattr', ['self'], self.derived_attr, bools[0] if bools else ['bin', '>', total, ['int', 2]]])
+                if r.random() < 0.3:
+                    out.append(['return', None])
+                return out
+            if self.ret_ty == 'integer':
+                out.append(['return', total])
+            elif self.ret_ty == 'string':
+                cat = ['str', 'r']
+                for e in strs[:5]:
+                    cat = ['bin', '+', ['bin', '+', cat, ['str', '|']], e]
+                out.append(['return', cat])
+            elif self.ret_ty == 'boolean':
+                acc = ['bin', '>', total, ['int', 3]]
+                for e in bools[:5]:
+                    acc = ['bin', '!=', acc, e]
+                out.append(['return', acc])
+            else:
+                k = r.random()
+                if k < 0.3:
+                    out.append(['return', None])
+                elif k < 0.4:
+                    out.append(['stop'])
+            return out
         kind = r.random()
         if kind < 0.6:
             out.append(['return', total])
@@ -724,9 +804,11 @@ class ProgGen(object):
         """-> (statements, control leaves the block for sure)"""
         r = self.rng
         self.spend()
-        choices = [('assign', 18), ('select_from', 12), ('select_rel', 14), ('create', 7)]
+        choices = [('assign', 18), ('select_from', 12), ('select_rel', 14 if self.edges else 0), ('create', 7 if self.allow_mutation else 0)]
         if self.allow_mutation:
-            choices += [('setattr', 12), ('relate', 8), ('unrelate', 9), ('create_relate', 4)]
+            choices += [('setattr', 12)]
+            if self.assoc:
+                choices += [('relate', 8), ('unrelate', 9), ('create_relate', 4)]
             if self.allow_delete:
                 choices += [('delete', 7), ('delete_sel', 5)]
         if self.calls:
@@ -736,7 +818,9 @@ class ProgGen(object):
         if self.loop_depth > 0:
             choices += [('loopctl', 6)]
         if depth > 0:
-            choices += [('return', 2), ('stop', 1)]
+            choices += [('return', 2)]
+            if self.ret_ty in ('any', None):
+                choices += [('stop', 1)]
         total = sum(w for _, w in choices)
         x = r.random() * total
         for name, w in choices:
@@ -772,7 +856,7 @@ class ProgGen(object):
         if not hs:
             return None
         h, c = r.choice(hs)
-        cands = [(a, t) for a, t, ref in CLASS_ATTRS[c] if not ref and a != 'ID']
+        cands = [(a, t) for a, t, ref in self.classes[c] if not ref and a != 'ID']
         a, t = r.choice(cands)
         e = self.gen_expr(t, 2)
         if e is None:
@@ -812,7 +896,7 @@ class ProgGen(object):
 
     def st_select_from(self, depth):
         r = self.rng
-        cls = r.choice(['A', 'A', 'B', 'B', 'X', 'X', 'L'])
+        cls = r.choice(self.cls_names)
         card = r.choice(['any', 'many', 'many'])
         wh = self.where_for(cls)
         if card == 'many':
@@ -838,13 +922,15 @@ class ProgGen(object):
         chain = []
         many_possible = (v.ty == 'set')
         for _ in range(r.choice([1, 1, 1, 2, 2, 3])):
-            edges = [e for e in EDGES if e[0] == cls]
+            edges = [e for e in self.edges if e[0] == cls]
             if not edges:
                 break
             e = r.choice(edges)
             chain.append([e[1], e[2], e[3]])
             cls = e[1]
             many_possible = many_possible or e[4]
+        if not chain:
+            return None
         card = r.choice(['many', 'many', 'any', 'one']) if many_possible else r.choice(['one', 'one', 'any', 'many'])
         if force_many:
             card = 'many'
@@ -864,7 +950,7 @@ class ProgGen(object):
         r = self.rng
         if not self.allow_mutation:
             return None
-        cls = r.choice(['A', 'B', 'X', 'L'])
+        cls = r.choice(self.cls_names)
         if r.random() < 0.1:
             return [['create', None, cls]]
         name = self.target_inst_var(cls)
@@ -899,7 +985,7 @@ class ProgGen(object):
     def st_delete_sel(self, depth):
         """select an instance and delete it (guarded): deletes that hit linked instances"""
         r = self.rng
-        cls = r.choice(['A', 'B', 'X', 'L'])
+        cls = r.choice(self.cls_names)
         for modes in self.loop_del:
             if modes.get(cls, 'none') != 'any':
                 return None
@@ -1152,7 +1238,7 @@ class ProgGen(object):
     def enter_loop(self, loopvar=None, loopvar_cls=None):
         r = self.rng
         modes = {}
-        for cls in ('A', 'B', 'X', 'L'):
+        for cls in self.cls_names:
             m = r.choice(['none', 'none', 'none', 'loopvar', 'any']) if self.allow_delete else 'none'
             if m == 'loopvar' and cls != loopvar_cls:
                 m = 'none'
@@ -1212,7 +1298,7 @@ class ProgGen(object):
             if r.random() < 0.5:
                 s = self.st_select_rel(depth, force_many=True)
             if s is None:
-                cls0 = r.choice(['A', 'B', 'X', 'L'])
+                cls0 = r.choice(self.cls_names)
                 s = [['select_from', 'many', self.fresh(cls0.lower() + 's'), cls0, self.where_for(cls0)]]
                 self.declare(s[0][2], V('set', cls0))
             pre = s
@@ -1263,7 +1349,10 @@ class ProgGen(object):
 
     def st_return(self, depth):
         r = self.rng
-        ty = r.choice(['integer', 'integer', 'string', 'boolean', None])
+        if self.ret_ty == 'any':
+            ty = r.choice(['integer', 'integer', 'string', 'boolean', None])
+        else:
+            ty = self.ret_ty
         e = self.gen_expr(ty, 2) if ty else None
         stmt = ['return', e]
         if r.random() < 0.7:
